@@ -415,12 +415,14 @@ def r16(rep: Report, ctx: Ctx) -> None:
                 isinstance(a, ast.Attribute) and a.attr == "sub_graph"
                 for a in ast.walk(src))
             guards = enclosing(fi.node, call, (ast.If,))
-            # tolerated guards: isinstance(node, <loop node class>) and
-            # `sub_graph is not None`
+            # tolerated guards (with their polarity): isinstance(node, <loop
+            # node class>) holds; `<x>.sub_graph is not None` holds
             g_ok = all(
-                "isinstance(" in unparse(g.test)
-                or unparse(g.test).endswith("sub_graph is not None")
-                for g in guards)
+                (g[0] == "truth" and g[1].startswith("isinstance(")
+                 and g[2] == "1")
+                or (g[0] == "cmp" and g[1].endswith("sub_graph")
+                    and g[2] == "IsNot" and g[3] == "None")
+                for g in cguards(ctx, fi, call))
             loops = enclosing(fi.node, call, (ast.For,))
             filt = [l for l in loops if isinstance(l.iter, ast.Name)]
             ok = into_sub and g_ok and bool(loops)
@@ -467,6 +469,10 @@ def r17(rep: Report, ctx: Ctx) -> None:
              and call_name(c) == "update_event_types"]
     ok = ok and len(marks) == 1 and unparse(marks[0].func.value) == unparse(
         tests[0].left)[:-4] if tests and marks else False
+    if ok:
+        gs = cguards(ctx, bp, marks[0])
+        ok = len(gs) == 1 and gs[0][0] == "cmp" and gs[0][2] == "In" \
+            and gs[0][1].endswith(".uid") and gs[0][3].endswith(".break_uids")
     rep.ob("R1.7", "BREAK marks the body nodes whose uid is a break uid", ok,
            fi=bp, node=tests[0] if tests else bp.node,
            detail="if node.uid in sub_graph_node.break_uids: "
